@@ -196,6 +196,9 @@ def make_directive(dname, sname):
             await self._pre("schema", da, context)
             return await nxt(schema, document, parsing_errors, operation_name, context, variables, initial_value)
 
+    if dname == "t2":
+        # hooks INHERITED from a base class (a mixin carrying the behaviour)
+        Tagger = type("Tagger_t2", (Tagger,), {})
     impl = Tagger()
     if dname in ("t1", "au"):
         # an implementation whose hooks are INSTANCE attributes (bound in a constructor / set with setattr), not
